@@ -5,6 +5,7 @@ import (
 	"log/slog"
 	"net/http"
 	"reservoir/utils/typeutils"
+	"strings"
 	"time"
 )
 
@@ -106,7 +107,8 @@ func ParseHeaderDirective(header http.Header) *HeaderDirectives {
 				slog.Debug("Error parsing Range header", "error", err, "value", value)
 			}
 		case "Cache-Control":
-			if cc, err := parseCacheControl(value); err == nil {
+			// Cache-Control may be split over several header lines, which are equivalent to one comma-separated list.
+			if cc, err := parseCacheControl(strings.Join(values, ",")); err == nil {
 				hd.CacheControl.value = typeutils.Some(cc)
 			} else {
 				slog.Debug("Error parsing Cache-Control header", "error", err, "value", value)
